@@ -206,6 +206,15 @@ pub fn bank_program(seed: u64, p: u64, cart_type: u8, rom_code: u8) -> (Vec<u8>,
     let off = bank * 0x4000 + 0x1100;
     image[off..off + a.bytes.len()].copy_from_slice(&a.bytes);
   }
+  // "peek" routines in bank 0: fixed-bank code that READS the switchable window through an
+  // absolute address. The routine is translated once; what it reads must follow the bank.
+  for (k, &src) in [0x4001u16, 0x4201, 0x5001].iter().enumerate() {
+    let mut a = Asm::new(0x3000 + 0x10 * k as u16);
+    a.b(&[0xfa, src as u8, (src >> 8) as u8]); // LD A,(src)
+    a.b(&[0x81, 0x4f, 0xc9]); // ADD A,C; LD C,A; RET
+    let off = 0x3000 + 0x10 * k;
+    image[off..off + a.bytes.len()].copy_from_slice(&a.bytes);
+  }
   // bank-0 tail that falls through 0x3FFF -> 0x4000
   for i in 0x3ff8..0x4000usize {
     image[i] = 0x0c; // INC C
@@ -237,7 +246,12 @@ pub fn bank_program(seed: u64, p: u64, cart_type: u8, rom_code: u8) -> (Vec<u8>,
     if a.here() > 0x2d00 {
       break;
     }
-    match rng.below(12) {
+    match rng.below(15) {
+      12..=14 => {
+        // data read of the switchable window from bank-0 code, under whatever bank is mapped now
+        a.call(0x3000 + 0x10 * rng.below(3) as u16);
+        desc.push_str(" peek");
+      }
       10 | 11 => {
         // a chain of hops through the high-RAM trampoline: 0x5100 under bank after bank
         a.ld_a(2 + rng.below(6) as u8);
